@@ -75,6 +75,26 @@ def run_impl(scripts, fw, nproc=8, env_extra=None, timeout=3000, nvx_dir=None):
     return res
 
 
+def stabilise(scripts, fw, impl, model, notes=None, nvx_dir=None, skip=None, limit=40):
+    """Order-dependence filter.  A worker process runs hundreds of scripts on one (virtual) event loop; very rarely —
+    seen on asyncio under heavy machine load — an outcome inside such a run differs from the outcome of the same
+    script in a fresh process.  Scripts whose implementation answer differs from the model's are therefore re-run, each
+    alone in a fresh process; if the answer changes, the fresh one is taken (and the incident noted).  A genuine
+    difference is deterministic and survives the re-run."""
+    sus = [i for i, (a, b) in enumerate(zip(impl, model)) if a != b and not (skip and skip[i])]
+    if not sus or len(sus) > limit:        # many differences: not a flake, do not spend the time
+        return impl
+    out = list(impl)
+    for i in sus:
+        a2 = run_impl([scripts[i]], fw, nproc=1, nvx_dir=nvx_dir)[0]
+        if a2 != impl[i]:
+            out[i] = a2
+            if notes is not None:
+                notes.append(f"{fw}: outcome inside a long worker run not confirmed in a fresh process (order-dependent "
+                             f"harness artefact; the fresh outcome is used): {impl[i][:80]} vs {a2[:80]}")
+    return out
+
+
 def run_model(driver, scripts, fw="twisted"):
     aio = {"aio": int(fw == "asyncio")}
     out = driver.run([f"ws.run {cfg_token(dict(s['cfg'], **aio))} {s.get('start', 'open')} " + " ".join(s["ops"]) for s in scripts])
